@@ -9,7 +9,11 @@
 #ifndef KK
 #define KK 4
 #endif
+#ifdef WRAP
+#define MAXN (KK + 3)
+#else
 #define MAXN (KK + 1)
+#endif
 
 static Trace g_tr;
 
@@ -136,8 +140,11 @@ extern "C" void harness()
 #endif
 	Model m{};
 #ifdef WRAP
-	// C19: place the generation counter W steps before the wrap; where exactly is the solver's choice
+	// C19: some callbacks are added while the counter is still small (they keep small generation numbers, as the oldest
+	// callbacks of a long-lived list do), then the counter is placed W steps before the wrap; where exactly is the solver's choice
 	{
+		unsigned npre = vf_choose(3);
+		for(unsigned i = 0; i < npre; i++) { uint32_t id = vf_nondet_u32(); st->hs[m.alloc] = (i & 1) ? st->list.prepend(Cb(id)) : st->list.append(Cb(id)); m.add_at((i & 1) ? 0 : m.cnt, id); }
 		uint32_t c0 = vf_nondet_u32();
 		vf_assume(c0 >= 0xffffffffu - (WRAP));
 		st->list.currentCounter.value = c0;
